@@ -20,6 +20,9 @@ P = {
  "C09": ("exploration", "rapid stateful (model-based) PBT: straight-line programs built one action per step, every variable and $ dumped after each step, differential against a reference location model; plus a model-free metamorphic check (read-only programs leave the document unchanged)",
    "6k (120k thorough) histories of up to 15 (40) actions over variables, unset names and $-paths: stores through chains of depth 1-4 with every index class, op=, ++/--, aliasing, stores through parameters and for-in variables, reads of missing paths; all variables and the document are compared with refjq after every action and GetRootJson at the end. 6k (120k) read-only programs must leave the document bit-for-bit equal. Exploration (stateful model-based).",
    "Trusted: refjq's location model (DESIGN.md 4.3). Open finding KF-array-alias (array length per copy) is excluded dynamically: actions that change the length of an array held in two places are dropped at generation time and counted.", "5/C09, 4.3"),
+ "C15": ("exploration", "rapid stateful (model-based) PBT: one list operation per step on five arrays, results and all contents printed after every step, differential against a reference list model",
+   "6k (120k thorough) histories of up to 20 (60) operations - push, pop, popfirst, index read/write with every index class, length, contains, sort, and method calls nested in each other's arguments - on arrays held by variables, by the document and by an object; after every step the result and every array with its length are compared with refjq's ideal list, and the final document with the reference root. Exploration (stateful model-based).",
+   "Trusted: refjq's list model (DESIGN.md 4.8, section 3.6 for contains, string form for sort). Arrays are reached through the name or path that holds them, as the property states; aliasing is C09's subject (KF-array-alias excluded dynamically).", "5/C15, 4.8"),
  "C05": ("exploration", "exhaustive small-scope enumeration + rapid PBT, differential against a reference model of the section-3 operator tables",
    "Every operator x every ordered pair of 40 representative operands x 3-4 supply modes is enumerated completely (about 66k programs), then 20k (quick) / 150k (thorough) random operand pairs; each result is compared in kind, value and error class with the section-3 tables. Exploration, exhaustive over the stated representative grid: it decides the table on the grid, not on every double.",
    "Trusted: refjq's transcription of DESIGN.md section 3; Go's regexp for RE2; exotic numeric strings, non-finite results and |x| >= 2^53 for % are unspecified and discarded (counted).", "5/C05, 3"),
